@@ -73,7 +73,34 @@ def run(tier):
                     cmds += ["exec 0", "wrapreport"]
                     cases.append(cmds)
                     meta.append((T, mode, pattern, len(parts), K, len(cmds)))
-    res = common.run_cases(binary, cases, tag="c08", per_case_timeout=60)
+    # LONG programs: hundreds of growths in one instance (a growth policy that changes with the size, protection of the pages added
+    # late, a step computed in a narrow type): 300 kB and 1.2 MB of code (thorough: 3 and 8 MiB), compared with a caller buffer of that
+    # size after every call and executed from the first byte to the last; with forced moves and with the kernel's own mremap
+    for bi, T in enumerate([300000 + 7, 1200000 + 13] if not full else [300007, 1200013, 1048576 + 5, 2 * 1048576 - 9, 3 * 1048576 + 1, 8 * 1048576 + 3]):
+        for mode, pre in (("plain", []), ("fit17", ["chunk %d 17"]), ("count16", None)):
+            if mode != "plain" and T > 2 * 1048576:
+                continue
+            kc += 1
+            K = 0x1122334400000000 + kc
+            lines = sled(T, rnd, K)
+            ncalls = [1, 7, 40][(bi + len(mode)) % 3]
+            cuts = sorted(rnd.sample(range(1, len(lines)), ncalls - 1))
+            parts, last = [], 0
+            for c in cuts + [len(lines)]:
+                parts.append(lines[last:c])
+                last = c
+            cmds = ["wrap reset", "wrap forcemove %d" % ((bi + len(mode)) % 2), "new 0 int", "new 1 ext %d H 0xcc" % (2 * T + 65536)]
+            if pre:
+                cmds += [p % i for p in pre for i in (0, 1)]
+            for p in parts:
+                hx = common.hx("\n".join(p) + "\n")
+                for i in (0, 1):
+                    cmds.append(("cnt %d 16 %s" if mode == "count16" else "asm %d %s") % (i, hx))
+                    cmds.append("sumoff %d" % i)
+            cmds += ["exec 0", "wrapreport"]
+            cases.append(cmds)
+            meta.append((T, mode, "long", len(parts), K, len(cmds)))
+    res = common.run_cases(binary, cases, tag="c08", per_case_timeout=240)
     stats = {"cases": len(cases), "growths": 0, "moves": 0, "calls_compared": 0, "executions_ok": 0, "max_len": 0, "min_growths_per_case": 99}
     for (T, mode, pattern, nparts, K, ncmd), cmds, r in zip(meta, cases, res):
         v.count()
@@ -180,7 +207,7 @@ def run(tier):
         else:
             v.distinct(("jump", tuple(steps)))
     v.cov["rule"] = ("executable programs (multi-byte-nop sled + mov rax,K + ret) whose plain length is 6000*m + r for every r in -24..24 (m = %s) so the last instructions start at every distance from the growth "
-                     "threshold; single call and 2-50 calls; plain / chunk fitting 16 and 64 / counting; ld --wrap mremap forces EVERY growth to move the mapping (old range unmapped). After every call "
+                     "threshold; single call and 2-50 calls; plain / chunk fitting (8 sizes) / counting; long programs of 300 kB and 1.2 MB of code (thorough: up to 8 MiB: > 1000 growths in one instance) compared and executed the same way; ld --wrap mremap forces EVERY growth to move the mapping (old range unmapped). After every call "
                      "(offset, FNV hash of asm_get_code[0,offset)) must equal the same calls on a 1 MiB caller buffer, and calling asm_get_code() must return K; plus sequences of asm_set_offset (ahead of / behind the code so far, up to 300000) + assemble, each call's region and offset compared with the caller buffer" % mults)
     v.cov["exhaustive"] = False
     v.cov.update(stats)
